@@ -615,7 +615,7 @@ for path in sorted(glob.glob(os.path.join(VERIF, 'corpus', 'c14_*.json'))):
     for j, spec in enumerate(json.load(open(path))):
         cases.append(('corpus-%s-%d' % (os.path.basename(path)[4:-5], j), spec))
 rng = chk.rng('fixptm')
-N = 6000 if chk.thorough else 700
+N = 40000 if chk.thorough else 700
 for i in range(N):
     cases.append(('gen-%d' % i, gen_case(rng)))
 
